@@ -84,7 +84,8 @@ def _gen(seed: int, i: int, tier: str) -> dict:
     for _ in range(rng.randint(2, 25)):
         n = rng.choice(nodes)
         if rng.random() < 0.2:
-            ops.append(["line", f"{n};255;0;0;{rng.choice([17, 18])};{proto}\n"])
+            ver = proto if (n != 0 or rng.random() < 0.6) else rng.choice(["", "2", "unknown", "1" * 5000])
+            ops.append(["line", f"{n};255;0;0;{rng.choice([17, 18])};{ver}\n"])
         else:
             ops.append(["line", rng.choice(kinds(rng, proto, n, rng.choice([0, 1, 7])))])
         if rng.random() < 0.05:
